@@ -221,6 +221,7 @@ func (t *Task) DeepCopy() *Task {
 		Location:             t.Location.DeepCopy(),
 		Requires:             t.Requires.DeepCopy(),
 		Namespace:            t.Namespace,
+		Watch:                t.Watch,
 	}
 	return c
 }
